@@ -1318,9 +1318,16 @@ func (r *txRun) runTx(tx txTx, ctx boltz.MutateContext, baseline int) string {
 			}
 		}()
 		var err error
-		if tx.mode == 'b' {
+		switch tx.mode {
+		case 'b':
 			err = r.db.Batch(ctx, body)
-		} else {
+		case 'r':
+			// a context the caller builds around a transaction it got elsewhere: NewTxMutateContext over the
+			// transaction of an enclosing Db.Update (the exported API hands out write transactions only that way)
+			err = r.db.Update(nil, func(outer boltz.MutateContext) error {
+				return body(boltz.NewTxMutateContext(context.Background(), outer.Tx()))
+			})
+		default:
 			err = r.db.Update(ctx, body)
 		}
 		res = txErrKind(err)
@@ -1371,6 +1378,10 @@ func txExec(line string) string {
 			ctx = boltz.NewMutateContext(context.Background())
 		}
 		outs = append(outs, r.runTx(tx, ctx, baseline))
+		if tx.mode == 'r' {
+			// that transaction worked with a context of its own, which ends with it
+			ctx = nil
+		}
 	}
 	return strings.Join(outs, " | ")
 }
